@@ -6,7 +6,8 @@ import core
 import decsuite as ds
 import msggen
 
-THEOREMS = ["C16.c16_valid_iff", "decode_ok", "C04.c04_prim_reject", "C04.c04_prim_accept"]
+THEOREMS = ["C16.c16_valid_iff", "decode_ok", "C04.c04_prim_reject", "C04.c04_prim_accept",
+            "decode_sound", "AcceptIff.type_accept_iff", "AcceptIff.command_accept_iff", "AcceptIff.response_accept_iff"]
 
 
 def run(ctx, replay_case):
@@ -74,6 +75,6 @@ def run(ctx, replay_case):
     })
 
 
-PROP = {"targets": ["TpmProofs.Props.C04"], "module": "TpmProofs.Props.C04", "theorems": THEOREMS, "run": run,
+PROP = {"targets": ["TpmProofs.Props.AcceptIff"], "module": "TpmProofs.Props.AcceptIff", "theorems": THEOREMS, "run": run,
         "assumptions": ["'first offending field in wire order, earlier events emitted' over whole messages is monitored + tied by correspondence; "
                         "the per-field accept/reject rule and validity = membership in the declared set are theorems"]}
